@@ -28,12 +28,19 @@ Bad(e, r, s2) ==
   \cup (IF FreshOK(e, s2) THEN {} ELSE {"published"})
   \cup (IF e.o.op = "set_cr" /\ e.res.c # (IF "cr" \in sup THEN "ok" ELSE "not_supported") THEN {"class"} ELSE {})
 
-Init == l = 1 /\ st = InitH /\ tainted = FALSE /\ seg = 0 /\ cfg = "-" /\ sup = {} /\ crv = "none"
+\* what was judged (vacuity guard): TLC registers, single worker; totals are printed with DONE
+CN == [scripts |-> 201, calls |-> 202, reads_checked |-> 203, seeks_checked |-> 204, published_checked |-> 205, detached |-> 206,
+       past_end |-> 207, zero_len_reads |-> 208, errors_expected |-> 209, cr_checked |-> 210]
+Bump(i) == TLCSet(i, TLCGet(i) + 1)
+BumpIf(c, i) == IF c THEN Bump(i) ELSE TRUE
+Counters == [x \in DOMAIN CN |-> TLCGet(CN[x])]
+Init == l = 1 /\ st = InitH /\ tainted = FALSE /\ seg = 0 /\ cfg = "-" /\ sup = {} /\ crv = "none" /\ \A x \in DOMAIN CN : TLCSet(CN[x], 0)
 SegInit ==
   /\ l <= Len(Rec) /\ Rec[l].ev = "hinit"
   /\ st' = [InitH EXCEPT !.ex = Rec[l].file0.ex, !.file = Rec[l].file0.d]
   /\ tainted' = FALSE /\ seg' = seg + 1 /\ cfg' = Rec[l].cfg
   /\ sup' = {Rec[l].sup[i] : i \in DOMAIN Rec[l].sup} /\ crv' = IF Rec[l].file0.ex THEN "any" ELSE "none"
+  /\ Bump(CN.scripts)
   /\ l' = l + 1
 Call ==
   /\ l <= Len(Rec) /\ Rec[l].ev = "hcall"
@@ -49,6 +56,15 @@ Call ==
                 ELSE Bad(e, r, s2) \cup (IF Quiescent(s2) /\ Exists(s2) /\ e.fresh.c = "ok" /\ ~CrOK(e, c2) THEN {"times"} ELSE {}) IN
      /\ st' = s2 /\ crv' = c2
      /\ tainted' = (tainted \/ bad # {} \/ e.o.op = "xseek")
+     /\ Bump(CN.calls)
+     /\ BumpIf(e.res.c = "ok" /\ "ok" \in r.c /\ e.o.op = "read", CN.reads_checked)
+     /\ BumpIf(e.res.c = "ok" /\ "ok" \in r.c /\ e.o.op \in {"seek_r", "seek_w"}, CN.seeks_checked)
+     /\ BumpIf(e.o.op # "xseek" /\ Quiescent(s2), CN.published_checked)
+     /\ BumpIf(st.w.det, CN.detached)
+     /\ BumpIf(IF st.r.open THEN st.r.pos > Len(st.r.data) ELSE st.w.open /\ st.w.pos > Len(st.w.buf), CN.past_end)
+     /\ BumpIf(e.o.op = "read" /\ e.res.c = "ok" /\ Len(e.res.v) = 0, CN.zero_len_reads)
+     /\ BumpIf("ok" \notin r.c, CN.errors_expected)
+     /\ BumpIf(e.o.op # "xseek" /\ Quiescent(s2) /\ Exists(s2) /\ e.fresh.c = "ok" /\ c2 \notin {"none", "any"}, CN.cr_checked)
      /\ IF bad = {} THEN TRUE
         ELSE Report("VIOL", [l |-> l, seg |-> seg, secondary |-> tainted, conjs |-> bad,
                              sig |-> [conj |-> CHOOSE c \in bad : TRUE, op |-> e.o.op, kind |-> "handles", cfg |-> cfg,
@@ -61,6 +77,6 @@ Call ==
 Next == SegInit \/ Call
 TrSpec == Init /\ [][Next]_vars
 Consumed ==
-  IF TLCGet("stats").diameter - 1 = Len(Rec) THEN Report("DONE", [events |-> Len(Rec)])
+  IF TLCGet("stats").diameter - 1 = Len(Rec) THEN Report("DONE", [events |-> Len(Rec), judged |-> Counters])
   ELSE Report("STUCK", [at |-> TLCGet("stats").diameter, of |-> Len(Rec)]) /\ FALSE
 =============================================================================
